@@ -90,7 +90,8 @@ def gen_params(name, rng, spec, nsamps_sel) -> dict:
         tf = rng.choice([1, 2, 2, 3, 4, rng.randint(1, max(1, nsamps_sel))])
         return {"tfactor": tf, "ffactor": ff}
     if name == "subband":
-        return {"dm": pick_dm(rng, nchans, nsamps_sel), "nsub": rng.choice(divisors(nchans))}
+        band = {k: spec.get(k, DISP_BAND[k]) for k in DISP_BAND}
+        return {"dm": pick_dm(rng, nchans, nsamps_sel, band=band), "nsub": rng.choice(divisors(nchans))}
     raise AssertionError(name)
 
 
